@@ -143,6 +143,14 @@ def arr(vals, dtype=None, shape=None):
 
 
 def step(s: Store, op: dict, exc_log: list):
+    if op.get("free"):
+        from physt.config import config
+        with config.enable_free_arithmetics():
+            return _step(s, op, exc_log)
+    return _step(s, op, exc_log)
+
+
+def _step(s: Store, op: dict, exc_log: list):
     name = op["op"]
     try:
         if name == "construct":
@@ -231,6 +239,49 @@ def step(s: Store, op: dict, exc_log: list):
         if name == "div":
             s.set(op["out"], s.get(op["h"]) / num_of(op["c"], op.get("k", "pyfloat")))
             return "ok"
+        if name == "normalize":
+            h = s.get(op["h"])
+            r = h.normalize(inplace=op.get("inplace", False), percent=op.get("percent", False))
+            if not op.get("inplace", False):
+                s.set(op["out"], r)
+            return "ok"
+        if name == "sum":
+            s.set(op["out"], sum(s.get(i) for i in op["hs"]))
+            return "ok"
+        if name == "invalid":
+            h = s.get(op["h"])
+            what = op["what"]
+            o = s.get(op["o"]) if "o" in op else None
+            if what == "mul_hist":
+                h * o
+            elif what == "imul_hist":
+                h *= o
+            elif what == "div_hist":
+                h / o
+            elif what == "idiv_hist":
+                h /= o
+            elif what == "rdiv":
+                2 / h
+            elif what == "mul_array":
+                h * np.ones(h.shape)
+            elif what == "div_array":
+                h / np.ones(h.shape)
+            elif what == "add_array":
+                h + np.ones(h.shape)
+            elif what == "add_scalar":
+                h + 4
+            elif what == "imul_array":
+                h *= np.ones(h.shape)
+            elif what == "add_none":
+                h + None
+            elif what == "add_list":
+                h += [1] * h.shape[0]
+            elif what == "sub_array":
+                h - np.ones(h.shape)
+            else:
+                raise KeyError(what)
+            exc_log.append(f"invalid:{what} was ACCEPTED")
+            return "accepted"
         if name == "merge":
             h = s.get(op["h"])
             kw = {}
